@@ -35,7 +35,8 @@ IFACES = ['org.verif.A', 'org.verif.B', 'org.verif.AB']
 MEMBERS = ['Sig', 'Sig2', 'Si']
 DESTS = [':1.5', 'org.verif.D', ':1.6']
 ARGVALS = ['x', 'y', '', '/a/', '/a/b', '/a/b/', '/a/bc', '/a', 'xy', '1', '2',     # '1', '2': the text of integer arguments
-           'C:\\t\\new', 'col1\tcol2', 'k=v']     # backslashes, a tab, an equals sign: literal inside the quotes of a rule
+           'C:\\t\\new', 'col1\tcol2', 'k=v',     # backslashes, a tab, an equals sign: literal inside the quotes of a rule
+           "it's", 'a,b', "'", "say 'hi', ok"]       # apostrophes (escaped as '\\'' in a rule) and commas (literal inside quotes)
 TYPES = ['signal', 'method_call', 'method_return', 'error']
 
 
@@ -609,7 +610,7 @@ def run_busrule(case):
         cli = rig.attach()
         r = case['rules'][0]
         want = _expected_text_constraints(r)
-        text = ','.join("%s='%s'" % (k, v) for k, v in want.items())
+        text = R.format_match_rule(want.items())
         rep = cli.call_bus('AddMatch', 's', [text])
         if rep is None or rep['type'] != 2:
             return [Disc('busrule.addmatch-refused', 'rule %r: %r' % (text, rep and (rep['fields'].get(4), rep['body'])))]
